@@ -106,34 +106,58 @@ theorem deleteSubsLoop_refuses (subs : List (Nat × SubObj)) (sess : Nat) (ids :
       · exact Or.inr rfl
       · exact hr.2.2 s hs'
 
-theorem setItemMode_other (l : List Item) (id mode : Nat) (it : Item) (h : it ∈ l) (hne : it.id ≠ id) :
-    it ∈ setItemMode l id mode := by
-  unfold setItemMode
-  refine List.mem_map.2 ⟨it, h, ?_⟩
-  simp [hne]
+/-- changing the mode of the table entry `id`, which belongs to `sess`, leaves the
+    items of every other session as they are -/
+theorem setItemMode_foreign (l : List Item) (id mode sess : Nat) (x : Item)
+    (hx : lookupItem l id = some x) (hown : x.sub.owner = sess) (it : Item) (h : it ∈ l)
+    (hf : it.sub.owner ≠ sess) : it ∈ setItemMode l id mode := by
+  induction l with
+  | nil => simp at h
+  | cons a r ih =>
+    unfold setItemMode
+    by_cases ha : a.id = id
+    · have : x = a := by simpa [lookupItem, List.find?, ha] using hx.symm
+      subst this
+      simp only [ha, ↓reduceIte, List.mem_cons]
+      simp only [List.mem_cons] at h
+      rcases h with rfl | h
+      · exact absurd hown hf
+      · exact Or.inr h
+    · simp only [ha, ↓reduceIte, List.mem_cons]
+      simp only [List.mem_cons] at h
+      rcases h with rfl | h
+      · exact Or.inl rfl
+      · have hx' : lookupItem r id = some x := by simpa [lookupItem, List.find?, ha] using hx
+        exact Or.inr (ih hx' h)
 
-/-- `SetMonitoringMode` leaves every item it does not name as it was -/
-theorem setModeLoop_frame (sess mode : Nat) :
-    ∀ (ids : List Nat) (items : List Item) (it : Item), it ∈ items → it.id ∉ ids →
+/-- `SetMonitoringMode` by `sess` leaves every item of another session exactly as it was
+    (whatever ids it names, known or not, and even if it ends in a nil dereference) -/
+theorem setModeLoop_scoped (sess mode : Nat) :
+    ∀ (ids : List Nat) (items : List Item) (it : Item), it ∈ items → it.sub.owner ≠ sess →
       it ∈ (setModeLoop items sess mode ids).2.1 := by
   intro ids
   induction ids with
   | nil => intro items it h _; simpa [setModeLoop] using h
   | cons a rest ih =>
-    intro items it h hn
-    simp only [List.mem_cons, not_or] at hn
+    intro items it h hf
     unfold setModeLoop
-    cases lookupItem items a with
-    | none => simpa using h
+    cases hl : lookupItem items a with
+    | none => simpa using ih items it h hf
     | some x =>
       simp only []
-      split
-      · simpa using h
-      · exact ih _ it (setItemMode_other items a mode it h hn.1) hn.2
+      by_cases hp : x.sub.owner = 0 ∨ sess = 0
+      · rw [if_pos hp]; exact h
+      · rw [if_neg hp]
+        by_cases hne : x.sub.owner ≠ sess
+        · rw [if_pos hne]; exact ih items it h hf
+        · rw [if_neg hne]
+          have hown : x.sub.owner = sess := by simpa using hne
+          exact ih _ it (setItemMode_foreign items a mode sess x hl hown it h hf) hf
 
-/-- `DeleteMonitoredItems` deletes only ids it names -/
-theorem deleteItemsLoop_named (items : List Item) (sess : Nat) :
-    ∀ (ids : List Nat) (id : Nat), id ∈ (deleteItemsLoop items sess ids).2.1 → id ∈ ids := by
+/-- what `DeleteMonitoredItems` spawns are ids whose table entry belongs to the requester -/
+theorem deleteItemsLoop_own (items : List Item) (sess : Nat) :
+    ∀ (ids : List Nat) (id : Nat), id ∈ (deleteItemsLoop items sess ids).2.1 →
+      ∃ x, lookupItem items id = some x ∧ x.sub.owner = sess := by
   intro ids
   induction ids with
   | nil => intro id h; simp [deleteItemsLoop] at h
@@ -141,14 +165,105 @@ theorem deleteItemsLoop_named (items : List Item) (sess : Nat) :
     intro id h
     unfold deleteItemsLoop at h
     cases hl : lookupItem items a with
-    | none => simp [hl] at h
+    | none => simp only [hl] at h; exact ih id h
     | some x =>
       simp only [hl] at h
-      split at h
-      · simp at h
-      · simp only [List.mem_cons] at h
-        rcases h with rfl | h
-        · simp
-        · simp [ih id h]
+      by_cases hp : x.sub.owner = 0 ∨ sess = 0
+      · rw [if_pos hp] at h; simp at h
+      · rw [if_neg hp] at h
+        by_cases hne : x.sub.owner ≠ sess
+        · rw [if_pos hne] at h; exact ih id h
+        · rw [if_neg hne] at h
+          simp only [List.mem_cons] at h
+          rcases h with rfl | h
+          · exact ⟨x, hl, by simpa using hne⟩
+          · exact ih id h
+
+/-- with unique ids the table entry under an item's id is that item -/
+theorem lookupItem_self (l : List Item) (hn : (l.map (·.id)).Nodup) (it : Item) (h : it ∈ l) :
+    lookupItem l it.id = some it := by
+  induction l with
+  | nil => simp at h
+  | cons a r ih =>
+    simp only [List.map_cons, List.nodup_cons, List.mem_map, not_exists, not_and] at hn
+    simp only [List.mem_cons] at h
+    rcases h with rfl | h
+    · simp [lookupItem, List.find?]
+    · have hne : ¬ a.id = it.id := fun e => hn.1 it h e.symm
+      simpa [lookupItem, List.find?, hne] using ih hn.2 h
+
+theorem setModeLoop_refuses (items : List Item) (sess mode : Nat) (ids : List Nat) (hs : sess ≠ 0)
+    (hall : ∀ id ∈ ids, lookupItem items id = none ∨
+      ∃ x, lookupItem items id = some x ∧ x.sub.owner ≠ sess ∧ x.sub.owner ≠ 0) :
+    (setModeLoop items sess mode ids).2 = (items, false) ∧
+    (setModeLoop items sess mode ids).1.length = ids.length ∧
+    ∀ s ∈ (setModeLoop items sess mode ids).1, s = .badMonitoredItemIdInvalid ∨ s = .badSessionIdInvalid := by
+  induction ids with
+  | nil => simp [setModeLoop]
+  | cons a rest ih =>
+    have hr := ih (fun id h => hall id (by simp [h]))
+    unfold setModeLoop
+    rcases hall a (by simp) with hn | ⟨x, hx, h1, h2⟩
+    · simp only [hn]
+      refine ⟨hr.1, by simp [hr.2.1], ?_⟩
+      intro s hs'; simp only [List.mem_cons] at hs'
+      rcases hs' with rfl | hs'
+      · exact Or.inl rfl
+      · exact hr.2.2 s hs'
+    · have hp : ¬ (x.sub.owner = 0 ∨ sess = 0) := by simp [hs, h2]
+      simp only [hx]; rw [if_neg hp, if_pos h1]
+      refine ⟨hr.1, by simp [hr.2.1], ?_⟩
+      intro s hs'; simp only [List.mem_cons] at hs'
+      rcases hs' with rfl | hs'
+      · exact Or.inr rfl
+      · exact hr.2.2 s hs'
+
+theorem deleteItemsLoop_refuses (items : List Item) (sess : Nat) (ids : List Nat) (hs : sess ≠ 0)
+    (hall : ∀ id ∈ ids, lookupItem items id = none ∨
+      ∃ x, lookupItem items id = some x ∧ x.sub.owner ≠ sess ∧ x.sub.owner ≠ 0) :
+    (deleteItemsLoop items sess ids).2 = ([], false) ∧
+    (deleteItemsLoop items sess ids).1.length = ids.length ∧
+    ∀ s ∈ (deleteItemsLoop items sess ids).1, s = .badMonitoredItemIdInvalid ∨ s = .badSessionIdInvalid := by
+  induction ids with
+  | nil => simp [deleteItemsLoop]
+  | cons a rest ih =>
+    have hr := ih (fun id h => hall id (by simp [h]))
+    unfold deleteItemsLoop
+    rcases hall a (by simp) with hn | ⟨x, hx, h1, h2⟩
+    · simp only [hn]
+      refine ⟨hr.1, by simp [hr.2.1], ?_⟩
+      intro s hs'; simp only [List.mem_cons] at hs'
+      rcases hs' with rfl | hs'
+      · exact Or.inl rfl
+      · exact hr.2.2 s hs'
+    · have hp : ¬ (x.sub.owner = 0 ∨ sess = 0) := by simp [hs, h2]
+      simp only [hx]; rw [if_neg hp, if_pos h1]
+      refine ⟨hr.1, by simp [hr.2.1], ?_⟩
+      intro s hs'; simp only [List.mem_cons] at hs'
+      rcases hs' with rfl | hs'
+      · exact Or.inr rfl
+      · exact hr.2.2 s hs'
+
+theorem liveSubIds_erase (l : List (Nat × SubObj)) (id x : Nat) (h : x ∈ (eraseSub l id).map (·.1)) :
+    x ∈ l.map (·.1) := by
+  simp only [eraseSub, List.mem_map, List.mem_filter] at h ⊢
+  obtain ⟨e, ⟨he, _⟩, rfl⟩ := h
+  exact ⟨e, he, rfl⟩
+
+theorem applyDelete_none (st : St) (k : Nat) (hp : st.pending[k]? = none) :
+    applyDelete st k = (.noSuchPending, st) := by
+  simp [applyDelete, hp]
+
+theorem applyDelete_miss (st : St) (k id : Nat) (hp : st.pending[k]? = some id) (hl : lookupSub st.subs id = none) :
+    applyDelete st k = (.applied false,
+      { st with items := st.items.filter (·.sub.id ≠ id), pending := st.pending.eraseIdx k }) := by
+  simp [applyDelete, hp, hl]
+
+theorem applyDelete_hit (st : St) (k id : Nat) (o : SubObj) (hp : st.pending[k]? = some id)
+    (hl : lookupSub st.subs id = some o) :
+    applyDelete st k = (.applied true,
+      { st with subs := eraseSub st.subs id, items := st.items.filter (·.sub.id ≠ id),
+                pending := st.pending.eraseIdx k ++ [id] }) := by
+  simp [applyDelete, hp, hl]
 
 end Opcua.SrvIds
